@@ -52,6 +52,7 @@ func runC07(c *Ctx) {
 	c07R2Push(c)
 	c07R2Delete(c)
 	c07R2Load(c)
+	c07R2Open(c)
 	c07R2GC(c)
 	c07R2IndexWrapper(c)
 	c07R2IndexAll(c)
@@ -1577,6 +1578,125 @@ func c07R2Load(c *Ctx) {
 	}
 }
 
+// c07R2Open: "after an OCI layout is closed and opened again": every constructor of an OCI store (a function of
+// content/oci returning a pointer to a struct that carries a *graph.Memory, and an error) hands out a store only after
+// the index of the layout was loaded into it — a successful call of a load-role function (one whose call tree re-indexes
+// an ocispec.Index with graph.IndexAll: c07R2Load) on that very store — or delegates to another such constructor.
+func c07R2Open(c *Ctx) {
+	const R = "C07.R2.every-push-indexed"
+	fns := c05FuncsOfPkg(c.P, "content/oci")
+	// load-role functions
+	loadIdx := map[*ssa.Function]bool{}
+	for _, f := range fns {
+		if f.Parent() != nil {
+			continue
+		}
+		hasIdx := false
+		for _, p := range f.Params {
+			if strings.HasSuffix(p.Type().String(), "specs-go/v1.Index") {
+				hasIdx = true
+			}
+		}
+		if !hasIdx {
+			continue
+		}
+		for _, e := range c05TreeEnvs(c05Root(f), 3) {
+			if len(CallsTo(e.Fn, c07IdxAll)) > 0 {
+				loadIdx[f] = true
+			}
+		}
+	}
+	loads := map[*ssa.Function]bool{}
+	for _, f := range fns {
+		if f.Parent() != nil || loadIdx[f] {
+			continue
+		}
+		for _, e := range c05TreeEnvs(c05Root(f), 3) {
+			for _, call := range Calls(e.Fn, func(string) bool { return true }) {
+				if g := StaticCallee(call); g != nil && loadIdx[g] {
+					loads[f] = true
+				}
+			}
+		}
+	}
+	isStoreT := func(t types.Type) bool {
+		pt, ok := t.(*types.Pointer)
+		if !ok {
+			return false
+		}
+		st, ok := pt.Elem().Underlying().(*types.Struct)
+		if !ok {
+			return false
+		}
+		for i := 0; i < st.NumFields(); i++ {
+			if c05IsNamedType(st.Field(i).Type(), "internal/graph", "Memory") {
+				return true
+			}
+		}
+		return false
+	}
+	isCtor := func(f *ssa.Function) bool {
+		r := f.Signature.Results()
+		return f.Parent() == nil && f.Signature.Recv() == nil && r.Len() == 2 && isStoreT(r.At(0).Type()) && ErrResultIndex(f.Signature) == 1 && len(f.Blocks) > 0
+	}
+	n := 0
+	for _, f := range fns {
+		if !isCtor(f) {
+			continue
+		}
+		n++
+		tn := FnName(f)
+		if len(loads) == 0 {
+			c.LostAnchor(R, "method of the OCI stores that loads index.json into the graph (load role)")
+			return
+		}
+		ok, detail := true, "every store handed out has had its index loaded (or comes from another constructor)"
+		for _, a := range RetAtoms(f, 0) {
+			if k, isK := a.Val.(*ssa.Const); isK && k.Value == nil {
+				continue
+			}
+			v := strip(a.Val)
+			if ex, isE := v.(*ssa.Extract); isE && ex.Index == 0 {
+				if call, isC := ex.Tuple.(*ssa.Call); isC && StaticCallee(call) != nil && isCtor(StaticCallee(call)) {
+					continue // delegation: the other constructor is held to the same rule
+				}
+			}
+			al, isA := v.(*ssa.Alloc)
+			if !isA {
+				ok, detail = false, "the store returned at "+c.P.Pos(a.Ret.Pos())+" is "+describe(v)+": neither built here nor by another constructor"
+				continue
+			}
+			ct := newCut()
+			for _, call := range Calls(f, func(string) bool { return true }) {
+				g := StaticCallee(call)
+				if g == nil || !loads[g] || isCtor(g) {
+					continue
+				}
+				onStore := false
+				for _, arg := range call.Common().Args {
+					if SameValue(arg, al) {
+						onStore = true
+					}
+				}
+				if !onStore {
+					continue
+				}
+				if _, plain := call.(*ssa.Call); !plain {
+					continue
+				}
+				ct.Edges(c05NilEdgesOf(call)...)
+			}
+			if len(ct.edges) == 0 || !c05AtomMustPass(a, ct) {
+				ok, detail = false, "the store returned at "+c.P.Pos(a.Ret.Pos())+" can be handed out without its index.json having been loaded successfully: Predecessors (and tags) of a reopened layout are empty"
+			}
+		}
+		c.Check(R, tn+"|opens-only-with-index-loaded", f.Pos(), ok, detail)
+	}
+	if n == 0 {
+		c.LostAnchor(R, "constructors of the OCI stores")
+	}
+}
+
 func c07R2GC(c *Ctx) {
 	const R = "C07.R2.every-push-indexed"
 	n := 0
@@ -1626,6 +1746,37 @@ func c07R2GC(c *Ctx) {
 			if otherGraph && len(CallsTo(fn, "~/internal/graph.NewMemory")) == 1 {
 				ok = false
 			}
+			// the graph is installed when it is complete: no indexing into it is still ahead of an install (a failure of that
+			// later indexing would leave the store with a half-built graph: Predecessors loses the edges not yet re-read)
+			late := ""
+			for _, st := range installs {
+				if pathIsFresh(accessPath(st.(*ssa.Store).Addr.(*ssa.FieldAddr).X)) {
+					continue // a store under construction is not visible yet
+				}
+				for _, ia := range ias {
+					// the instruction of fn through which the indexing call is reached
+					var top ssa.Instruction
+					if ia.Parent() == fn {
+						top = ia.(ssa.Instruction)
+					} else {
+						for _, e := range c05TreeEnvs(c05Root(fn), 3) {
+							if e.Fn != ia.Parent() {
+								continue
+							}
+							for lv := e; lv != nil && lv.Parent != nil; lv = lv.Parent {
+								if lv.Parent.isRoot() && lv.Call != nil {
+									top = lv.Call.(ssa.Instruction)
+								}
+							}
+						}
+					}
+					if top != nil && top.Parent() == fn && reach(st.Block(), instrIndex(st)+1, top, nil) {
+						late = c.P.Pos(ia.Pos())
+					}
+				}
+			}
+			c.Check(R, tn+"|graph-installed-only-when-complete", G.Pos(), late == "",
+				ifelse(late == "", "no IndexAll into the rebuilt graph is reachable after it was installed", "the rebuilt graph is installed while the indexing at "+late+" is still ahead: if that fails, GC leaves a half-built graph behind"))
 			c.Check(R, tn+"|rebuilt-graph-installed", G.Pos(), ok,
 				ifelse(ok, fmt.Sprintf("the %d IndexAll call(s) fill the new graph and every successful path installs it as s.graph", len(ias)), "GC rebuilds a predecessor graph but does not install it on every successful path, indexes into another graph, or indexes roots without their descendants (Index instead of IndexAll): Predecessors after GC reports removed manifests or misses kept ones"))
 		}
@@ -1804,6 +1955,9 @@ func c07R4(c *Ctx) {
 }
 
 var c07Mutants = []Mutant{
+	{Name: "gc-installs-graph-before-referrers-indexed", File: "content/oci/oci.go", Old: "\t// index referrer manifests\n", New: "\ts.tagResolver = tagResolver\n\ts.graph = graph\n\t// index referrer manifests\n", Expect: "C07.R2.every-push-indexed|(*~/content/oci.Store).gcIndex|graph-installed-only-when-complete"},
+	// keeps the repository's tests green
+	{Name: "readonly-open-skips-index-when-stat-fails", File: "content/oci/readonlyoci.go", Old: "\tif err := store.loadIndexFile(ctx); err != nil {\n\t\treturn nil, fmt.Errorf(\"invalid OCI Image Index: %w\", err)\n\t}\n\n\treturn store, nil\n}\n\n// NewFromTar", New: "\tif _, err := fs.Stat(fsys, ocispec.ImageIndexFile); err == nil {\n\t\tif err := store.loadIndexFile(ctx); err != nil {\n\t\t\treturn nil, fmt.Errorf(\"invalid OCI Image Index: %w\", err)\n\t\t}\n\t}\n\n\treturn store, nil\n}\n\n// NewFromTar", Expect: "C07.R2.every-push-indexed|~/content/oci.NewFromFS|opens-only-with-index-loaded"},
 	{Name: "exists-prunes-predecessor-entry", File: "internal/graph/memory.go", Old: "\t_, exists := m.nodes[nodeKey]\n\treturn exists\n", New: "\t_, exists := m.nodes[nodeKey]\n\tif !exists {\n\t\tdelete(m.predecessors, nodeKey)\n\t}\n\treturn exists\n", Expect: "C07.R1.inverse-relation|(*~/internal/graph.Memory).Exists|predecessors|only-index-and-remove-write-the-graph"},
 	// round 6: an early nil return is accepted for an absent or EMPTY entry only
 	{Name: "predecessors-nil-for-singleton-entry", File: "internal/graph/memory.go", Old: "\tif !exists {\n\t\treturn nil, nil\n\t}\n\tvar res []ocispec.Descriptor", New: "\tif !exists || len(set) == 1 {\n\t\treturn nil, nil\n\t}\n\tvar res []ocispec.Descriptor", Expect: "C07.R1.inverse-relation|(*~/internal/graph.Memory).Predecessors|empty-only-when-no-predecessor-entry"},
